@@ -19,7 +19,10 @@ RejBase == 1000000
 NEv == Len(Traces[tid].ev)
 Evt == Traces[tid].ev[l]
 Same(view, e) == \A i \in 1..N : view[i] = "edge" \/ view[i] = e[i]
-Act == IF Evt.v = "reopen" THEN Reopen ELSE Stroke(Evt.o, Evt.len, Evt.v)
+\* a recorded reopen: the document object is replaced by one loaded from the last saved file - nothing that Level A speaks of changes
+\* (the guards of Borders!Reopen are about the generator's bookkeeping, which a trace starting from a preloaded line does not have)
+TReopen == UNCHANGED <<edge, runs, openv, maxOrder>> /\ hist' = Append(hist, [o |-> 0, len |-> 0, v |-> "reopen"])
+Act == IF Evt.v = "reopen" THEN TReopen ELSE Stroke(Evt.o, Evt.len, Evt.v)
 Matches == Act /\ Same(Evt.oa, edge') /\ Same(Evt.ob, edge') /\ Same(Evt.ra, edge') /\ Same(Evt.rb, edge')
 Clause == IF ~ENABLED Act THEN "not-enabled"
           ELSE IF ~ENABLED (Act /\ Same(Evt.oa, edge')) THEN "open.own-side"
